@@ -9,6 +9,7 @@ import (
 	"go/types"
 	"math/big"
 	"strings"
+	"sync"
 
 	"golang.org/x/tools/go/ssa"
 )
@@ -81,8 +82,27 @@ type Layouts struct {
 	bv       bool                     // bit-vector mode
 }
 
+var rootClassReg = map[string]int{}
+var rootClassMu sync.Mutex
+
 func typeKey(t types.Type) string {
-	return types.TypeString(t, func(p *types.Package) string { return p.Path() })
+	k := types.TypeString(t, func(p *types.Package) string { return p.Path() })
+	// register the heap class of objects with this root type
+	cls := clsData
+	switch tt := t.(type) {
+	case *types.Named:
+		if _, isStruct := tt.Underlying().(*types.Struct); isStruct {
+			if tt.Obj().Pkg() != nil && strings.HasPrefix(tt.Obj().Pkg().Path(), repoModPath) {
+				cls = clsRepo
+			} else {
+				cls = clsForeign
+			}
+		}
+	}
+	rootClassMu.Lock()
+	rootClassReg[k] = cls
+	rootClassMu.Unlock()
+	return k
 }
 
 func (L *Layouts) intSort(t types.Type) Sort {
